@@ -157,7 +157,7 @@ ADD4 = {
  "C05": " The guard in front of InitChain: a genesis file that repeats a validator key, at any position, must be refused by ValidateGenesis (control: the same file without the repeated entry is accepted)." + RS,
  "C06": " Directed: two validators begin unstaking in one block (one queue slot) and the one queued first is convicted of double signing. Index soundness and both queue invariants also hold in every history under the key-type restriction (C06_*_under_key_restriction)." + RS, "C07": RS,
  "C08": " Counter = stored misses also in every history under the key-type restriction (C08_counter_equals_stored_misses_under_key_restriction). Every window position of the int64 range has its own stored key and validators never share one (C08_window_positions_have_their_own_keys, C08_validators_never_share_a_position_key). The stored key of a window position (GetValMissedBlockKey) is compared with the model's missed_key - proved injective - for positions over the whole int64 range, and two positions with one key are searched for directly: a window longer than any history the driver can run still has one key per position." + RS,
- "C09": " Directed: the minimum stake is raised just above a jailed, still staked validator; when its term is over its unjail must be refused." + RS,
+ "C09": " Tombstone permanence and 'never regains an index entry' also hold over every history under the key-type restriction (C09_*_under_key_restriction). Directed: the minimum stake is raised just above a jailed, still staked validator; when its term is over its unjail must be refused." + RS,
  "C10": RS,
  "C11": " Under consensus parameters that admit ed25519 validator keys only (a third of the histories; model deliver_tx_cp, App/KeyTypes.v, proved equal to deliver_tx without the restriction): a first-time stake under another key type passes the ante handler, pays its fee and leaves nothing else (C11_cp_refuses_other_key_types, C11_cp_handler_err_pays_fee_only). Parameter keys of unknown subspaces, recipients of unusual address length; a process that ends inside DeliverTx is reported with the transaction." + RS,
  "C12": " Stores mounted on databases of their own; the pruning policy enters the model as the numbers the harness chose, never as read back through the accessors the stores use.",
@@ -165,7 +165,7 @@ ADD4 = {
  "C14": " Through BaseApp also right after Commits (block 1 included): the default-height and the explicit-height query without proof against a direct read of the live store.",
  "C15": " The cache multistore's own Write, also with store keys of the transient kind.",
  "C16": " A tracing context as BaseApp builds it (block height at construction, transaction hash added to the branch): every later trace record must carry both.",
- "C17": " Messages handed to the governance handler directly (the sender need not hold a key): the owner, a stranger, and addresses differing from the owner's in the case of one letter or in one byte that is no valid text - the model runs handle alone. DAO messages from the owner of the gov/daoOwner PARAMETER (not the DAO owner) must be refused." + RS,
+ "C17": " The whole-block-cycle statement also holds under the key-type restriction (C17_only_the_owners_tx_changes_parameters_under_key_restriction). Messages handed to the governance handler directly (the sender need not hold a key): the owner, a stranger, and addresses differing from the owner's in the case of one letter or in one byte that is no valid text - the model runs handle alone. DAO messages from the owner of the gov/daoOwner PARAMETER (not the DAO owner) must be refused." + RS,
  "C18": " The text form of Dec (String / NewDecFromStr) against the model's dec_to_text / text_to_dec, magnitudes below one of either sign included; Uint.Mul with bit lengths adding up to 255..258; RoundInt64 / TruncateInt64 around +-2^63 at and beside the tie.",
  "C19": " Messages of 4096, 4097 and 70000 bytes with their SHA-256/512 digests as other messages; empty and one-byte-longer signature slots; a second keybase history on the on-disk keybase behind its open-per-call wrapper; signing after every import under the new and under the armor's passphrase.",
  "C20": " Hostile JSON tokens (one value of a good document replaced by a short token of another shape) through amino-JSON of every type and the key types' own UnmarshalJSON; the verifier's sign bytes (ante handler's GetSignBytes on the decoded transaction) must equal the signer's; memos with surrounding white space; window-position keys.",
